@@ -30,7 +30,8 @@ from crosshair.util import IgnoreAttempt, UnexploredPath
 #     cyclic collector off while a path is traced and collect between paths (every 16 paths).  A resulting nondeterminism would surface as
 #     NotDeterministic -> shard HARNESS-ERROR, never as a verdict.
 # (2) format() of exactly-typed concrete atoms (str/int/bool/float/None/classes) skips deep_realize;
-#     format() of a dict/list/tuple/set yields a placeholder text instead of realising its symbolic elements.
+#     format() of a dict/list/tuple/set, or of a symbolic number, yields a placeholder text instead of realising
+#     (plumpy formats such values only into error and log messages; no oracle reads message texts).
 import gc as _gc
 import weakref as _weakref
 
@@ -38,6 +39,7 @@ from crosshair import core as _chcore
 
 _chcore._PATCH_REGISTRATIONS.pop(_weakref.ref.__call__, None)
 _orig_format_patch = _chcore._PATCH_REGISTRATIONS.get(format)
+ABSTRACT_FORMAT = {'symbolic_numbers': True}  # harnesses whose oracle depends on formatted numbers switch this off
 _ATOMS = (str, int, bool, float, type(None))
 import collections.abc as _abc  # noqa: E402
 
@@ -48,6 +50,10 @@ def _fast_format(obj, format_spec=''):
     with NoTracing():
         if (type(obj) in _ATOMS or type(obj) is type) and type(format_spec) is str:
             return format(obj, format_spec)
+        if ABSTRACT_FORMAT['symbolic_numbers'] and hasattr(type(obj), '__ch_realize__') and not hasattr(obj, '__ch_is_str__') \
+                and type(obj).__name__ in ('SymbolicInt', 'SymbolicBool', 'SymbolicFloat', 'SymbolicBoundedInt'):
+            # a symbolic number formatted into a (log/error) message: placeholder instead of one path per value
+            return f'<{type(obj).__name__}>'
         if isinstance(obj, _CONTAINERS) and not isinstance(obj, (str, bytes)):
             # containers are only ever formatted into error/log messages by plumpy; realising every symbolic value
             # inside them would split the path per concrete value.  The message text is never part of an oracle.
